@@ -21,7 +21,7 @@ pub fn route_keys(sel: i64, v: i64) -> Vec<i64> {
 
 enum H {
     S(Stream<i64>), SS(StreamSink<i64>), C(Cell<i64>), CS(CellSink<i64>), SL(StreamLoop<i64>), CL(CellLoop<i64>),
-    R(Router<i64, i64>, i64), L(Listener), Z(Lazy<i64>, Arc<Mutex<u32>>), T(Option<Transaction>), P, Dropped,
+    R(Arc<Router<i64, i64>>, i64), L(Listener), Z(Lazy<i64>, Arc<Mutex<u32>>), T(Option<Transaction>), P, Dropped,
 }
 
 type Log = Arc<Mutex<Vec<(String, i64)>>>;
@@ -202,7 +202,7 @@ impl Api {
             ["sloopclose", l, s] => { let s = need!(self.s(s)); match self.h.get(*l) { Some(H::SL(l)) => { l.loop_(&s); ok() } _ => "skip".into() } }
             ["cloop", x] => { fresh!(x); self.h.insert(x.to_string(), H::CL(self.ctx.new_cell_loop())); ok() }
             ["cloopclose", l, c] => { let c = need!(self.c(c)); match self.h.get(*l) { Some(H::CL(l)) => { l.loop_(&c); ok() } _ => "skip".into() } }
-            ["router", r, s, sel] => { fresh!(r); let (s, sel) = (need!(self.s(s)), need!(num(sel))); self.h.insert(r.to_string(), H::R(self.ctx.new_router(&s, move |v: &i64| route_keys(sel, *v)), sel)); ok() }
+            ["router", r, s, sel] => { fresh!(r); let (s, sel) = (need!(self.s(s)), need!(num(sel))); self.h.insert(r.to_string(), H::R(Arc::new(self.ctx.new_router(&s, move |v: &i64| route_keys(sel, *v))), sel)); ok() }
             ["route", x, r, k] => { fresh!(x); let k = need!(num(k)); match self.h.get(*r) { Some(H::R(r, _)) => { let s = r.filter_matches(&k); self.h.insert(x.to_string(), H::S(s)); ok() } _ => "skip".into() } }
             ["listen", l, x] | ["listenweak", l, x] => { fresh!(l);
                 let weak = ws[0] == "listenweak";
@@ -210,6 +210,23 @@ impl Api {
                 let li = if let Some(s) = self.s(x) { if weak { s.listen_weak(k) } else { s.listen(k) } }
                     else if let Some(c) = self.c(x) { if weak { c.listen_weak(k) } else { c.listen(k) } } else { return "skip".into() };
                 self.h.insert(l.to_string(), H::L(li)); ok() }
+            ["routelate", l, r, k0, k] => { fresh!(l); let (k0, k) = (need!(num(k0)), need!(num(k)));
+                // a route requested from inside a handler that runs after the router's update (a listener on another routed stream),
+                // on that stream's first event: the new route sees the input's events of later transactions
+                match self.h.get(*r) {
+                    Some(H::R(router, _)) => {
+                        let trig = router.filter_matches(&k0);
+                        let router2 = router.clone();
+                        let log = self.log.clone(); let name = l.to_string();
+                        let keep: Arc<Mutex<Vec<Listener>>> = Arc::new(Mutex::new(vec![]));
+                        let outer = trig.once().listen(move |_: &i64| {
+                            let rs = router2.filter_matches(&k);
+                            let (log, name) = (log.clone(), name.clone());
+                            keep.lock().unwrap().push(rs.listen(move |v: &i64| log.lock().unwrap().push((name.clone(), *v))));
+                        });
+                        std::mem::forget(outer);
+                        self.h.insert(l.to_string(), H::P); ok() }
+                    _ => "skip".into() } }
             ["latelisten", l, s, base, op] => { fresh!(l); let (s, base, op) = (need!(self.s(s)), need!(self.s(base)), need!(num(op)));
                 // FRP built inside a listener handler, during propagation: on the first event k of `s` a two-input node on `base`
                 // (its other input never fires), a map and a listener are built; they must see `base`'s event of that very transaction
